@@ -148,6 +148,13 @@ func c10Case(o *Out, r *Rng) {
 				}
 			}
 		}
+		if r.Chance(15) {
+			// the meta field declares no argument either
+			sel := &gSel{kind: "field", name: "__typename", alias: "tnx"}
+			d.ops[0].sels = append(d.ops[0].sels, sel)
+			cands = []*gSel{sel}
+			o.Count("undeclared-argument=on-__typename")
+		}
 		if len(cands) == 0 {
 			return
 		}
@@ -224,6 +231,11 @@ func c10Case(o *Out, r *Rng) {
 			o.Count("reject-site=inline-fragment")
 		}
 	} else if kind == "reject" {
+		// what stands for a type in the condition: an undefined name, also wrapped; a directive's name (not a type)
+		badCond := Pick(r, []string{"Nope", "Nope", "Nope!", "[Nope]", "skip", "Query!", "[Query]"})
+		if reject == "undefined-type-condition" {
+			o.Count("bad-type-condition=" + badCond)
+		}
 		// textual injection at a random field selection of the first operation
 		f := Pick(r, fields)
 		marker := f.name
@@ -236,7 +248,7 @@ func c10Case(o *Out, r *Rng) {
 		case "unknown-directive-arg":
 			inj = marker + " @skip(if: false, unless: true)"
 		case "undefined-type-condition":
-			inj = marker + " ... on Nope { x }"
+			inj = marker + " ... on " + badCond + " { x }"
 		}
 		i := strings.Index(doc, marker)
 		// put the injection after the whole token (and its arguments) — simplest: only when the field has no args/sels
@@ -245,7 +257,7 @@ func c10Case(o *Out, r *Rng) {
 			j := strings.LastIndex(strings.SplitN(doc, "\n", 2)[0], "}")
 			switch reject {
 			case "undefined-type-condition":
-				doc = doc[:j] + " ... on Nope { x } " + doc[j:]
+				doc = doc[:j] + " ... on " + badCond + " { x } " + doc[j:]
 			case "unknown-directive":
 				doc = doc[:j] + " __typename @nope " + doc[j:]
 			case "misplaced-directive":
